@@ -64,7 +64,7 @@ def run_case(seed, tier, rec, st):
             for src in ("meta", "ann", "cfg"):
                 r = rng.random()
                 if r < 0.3:
-                    pool = [f"{src[0]}{n}"] + [o for o in names if o != n] + ["shared"]
+                    pool = [f"{src[0]}{n}"] + [o for o in names if o != n] + ["shared", ""]
                     f[src] = rng.choice(pool)
             fields.append(f)
         if rng.random() < 0.3 and nf >= 2:
@@ -98,6 +98,10 @@ def run_case(seed, tier, rec, st):
                 f["default_is_none"] = args[-1] == "default=None"
             if f["meta"] is not None:
                 args.append(f"metadata=field_options(alias={f['meta']!r})")
+            elif f["tk"] in ("int", "str", "date") and rng.random() < 0.25:
+                # field_options used for something else (its alias argument stays None): the other alias sources still apply
+                args.append(f"metadata=field_options(deserialize=_CONV[{i}])")
+                f["field_options_without_alias"] = True
             lines.append(f"    {f['name']}: {ann}" + (f" = field({', '.join(args)})" if args else ""))
         declared = lines[field_lines_at:]
         noinit = rng.random() < 0.25
@@ -135,8 +139,27 @@ def run_case(seed, tier, rec, st):
                 config = ["    class Config(Base.Config):"] + config[1:]
                 if not cfg_aliases:
                     config.append("        aliases = {}")
-            lines = (["@dataclass", ("class Base(" + mixin_src + "):").replace("()", "")] + stale + base_cfg + ["@dataclass", "class Mid(Base):"] + declared
-                     + ["@dataclass", "class M(Mid):"] + config + hook_lines)
+            if rng.random() < 0.4:
+                # Mid re-annotates members WITHOUT a value: a fresh member (default found along the MRO, none of Base's metadata)
+                bare = []
+                for ln, f in zip(declared, fields):
+                    if f["default"] and f["meta"] is None and "field(" in ln and "default=" in ln and "metadata=" not in ln:
+                        bare.append(ln.split(" = field(")[0])
+                        # Base keeps the default (the stale line carries it, with a stale alias in its metadata)
+                    else:
+                        bare.append(ln)
+                if bare != declared:
+                    stale = [(_re.sub(r" = field\(", " = field(metadata=field_options(alias='STALE_M'), ", s_, count=1) if b != d_ and "metadata=" not in s_ else s_)
+                             for s_, b, d_ in zip(stale, bare, declared)]
+                    declared = bare
+                    rec.count("bare_reannotation_in_mid")
+                    bare_direct = rng.random() < 0.6
+            if stale_bases and locals().get("bare_direct"):
+                # the class under test re-annotates the members itself
+                lines = (["@dataclass", ("class Base(" + mixin_src + "):").replace("()", "")] + stale + base_cfg + ["@dataclass", "class M(Base):"] + declared + config + hook_lines)
+            else:
+                lines = (["@dataclass", ("class Base(" + mixin_src + "):").replace("()", "")] + stale + base_cfg + ["@dataclass", "class Mid(Base):"] + declared
+                         + ["@dataclass", "class M(Mid):"] + config + hook_lines)
         else:
             lines = lines[:field_lines_at] + declared + config + hook_lines
         if discr:
@@ -150,6 +173,7 @@ def run_case(seed, tier, rec, st):
             w = TYPES[f["tk"]][1](50 + i)
             DEF.append(TYPES[f["tk"]][2](w))
         fam.module._DEF = DEF
+        fam.module._CONV = [TYPES[f["tk"]][2] for f in fields]
         fam.exec_src("from mashumaro.jsonschema.annotations import Minimum, Maximum\n")
         try:
             fam.exec_src(src)
@@ -234,7 +258,16 @@ def run_case(seed, tier, rec, st):
             det = lambda **kw: dict({"source": src, "input": common.short(d, 300)}, **kw)
             facts = {"allow": allow, "forbid": forbid, "discriminator": discr, "none_key_present": "None" in present, "init_false_member": noinit, "pre_deserialize_hook": hook, "plain_config_chain": plain_cfg_chain, "non_string_key": 7 in present0, "config_on_undecorated_root": undecorated_root, "fields_redeclared_in_middle_class": stale_bases}
             try:
-                r = dec(dict(d))
+                if not hook and rng.random() < 0.15:
+                    # a mapping that MANUFACTURES values for absent keys when subscripted: absent keys are still absent
+                    import collections
+                    arg = collections.defaultdict(lambda: 7, d)
+                    r = dec(arg)
+                    if dict(arg) != d:
+                        rec.violation("keymodel-mismatch:input-mapping-grew", det(observed=common.short(dict(arg), 300)), dict(facts, defaultdict_input=True))
+                    rec.count("defaultdict_inputs")
+                else:
+                    r = dec(dict(d))
                 got = ("ok", {f["name"]: getattr(r, f["name"]) for f in fields})
             except ExtraKeysError as e:
                 got = ("extra", set(e.extra_keys))
